@@ -48,6 +48,7 @@ import decimal
 import logging
 logger = logging.getLogger(__name__)
 
+from collections import defaultdict
 from itertools import chain
 from spyne.util import six
 
@@ -369,6 +370,10 @@ class _SpyneJsonRpc1(JsonDocument):
                     ctx.in_header = headers
             # decode method arguments
             if ctx.in_body_doc is None:
+                # no arguments at all: what must occur is still missing
+                if self.validator is self.SOFT_VALIDATION:
+                    self._check_freq_dict(body_class, defaultdict(int))
+
                 ctx.in_object = [None] * len(body_class._type_info)
             else:
                 ctx.in_object = self._doc_to_object(ctx, body_class,
